@@ -16,7 +16,7 @@ def mk_ops(kind):
     B = (lambda s: s.encode()) if kind == "bytes" else (lambda s: s)
     return {
         "find)": lambda s: s.find(B(")")), "rfind)": lambda s: s.rfind(B(")")), "find(": lambda s: s.find(B("(")),
-        "split": lambda s: s.split(), "split_sp": lambda s: s.split(B(" ")), "split5": lambda s: s.split(None, 2),
+        "split": lambda s: s.split(), "split_sp": lambda s: s.split(B(" ")), "split5": lambda s: s.split(None, 2), "split_ws1": lambda s: s.split(None, 1), "split_ws0": lambda s: s.split(None, 0),
         "strip": lambda s: s.strip(), "rstrip": lambda s: s.rstrip(), "starts": lambda s: s.startswith(B("a ")),
         "ends": lambda s: s.endswith(B(") ")), "in": lambda s: B(" a") in s, "slice": lambda s: s[s.find(B("(")) + 1: s.rfind(B(")"))],
         "replace": lambda s: s.replace(B("a"), B("bb"), 1), "partition": lambda s: s.partition(B(":")), "rpartition": lambda s: s.rpartition(B(":")),
